@@ -479,3 +479,15 @@ def run(ctx):
              "by ovni_mark_push / pop / set")
     from rules import round6
     round6.check_mark_type_range_agrees(ctx, "R17.9")
+    ctx.rule("R17.10", "a conflicting definition is refused wherever it stands: the failure of parse_mark (title, channel "
+             "type or label conflict between threads) is followed site by site to main's exit status - scan_thread is "
+             "evaluated on a thread with three types of which parse_mark refuses every subset: it fails unless none is "
+             "refused (a later type must not overwrite an earlier failure)")
+    from rules import round8
+    round8.check_failure_reaches_main(ctx, "R17.10", "parse_mark", "src/emu/ovni/mark.c", "mark-conflict",
+                                      "a title, channel-type or label conflict between threads is accepted", 4)
+    round8.check_scan_thread_keeps_failure(ctx, "R17.10")
+    ctx.rule("R17.11", "marks show for every thread and CPU, not only for those whose own stream defines types: "
+             "connect_thread / connect_cpu connect all elements of a list of three to the Paraver rows whichever of them "
+             "carry mark metadata (8 subsets each)")
+    round8.check_mark_connect_covers_all(ctx, "R17.11")
